@@ -28,7 +28,7 @@ from .. import boot, canon, pool
 from .. import c03_gen as G
 
 ID = 'C03'
-BUDGET = {'quick': 200, 'thorough': 1500}
+BUDGET = {'quick': 400, 'thorough': 2400}
 BATCH = 48
 F1 = ['assign']
 
@@ -56,16 +56,14 @@ def _levels(tier):
                   lambda: (s for s in G.chains(3, G.FULL, F1) if not _is_core(s))))
         L.append(('pairs under module / full patterns, assign', 'list',
                   lambda: (s for s in G.pairs(G.FULL, F1) if not _is_core(s))))
-        L.append(('chains d=4 / core patterns, assign', 'list', lambda: G.chains(4, G.CORE, F1)))
+        L.append(('chains d=4 / mini patterns, assign', 'list', lambda: G.chains(4, G.MINI, F1)))
         for st in ('gen', 'set', 'dict'):
             L.append(('chains d<=3 with a comprehension / core patterns, style %s' % st, st,
                       (lambda st=st: (s for d in (1, 2, 3) for s in G.chains(d, G.CORE, F1)
                                       if 'G' in G.shape_id(s) and (st != 'gen' or d == 3)))))
-        for lv in (0, 1, 2, 3):
-            L.append(('chains d=3 / core patterns, all forms at level %d' % lv, 'list',
-                      (lambda lv=lv: (s for s in G.chains(3, G.CORE, F1,
-                                                          forms_by_depth={lv: G.FORMS})
-                                      if _has_form(s)))))
+        L.append(('chains d=3 / core patterns, all forms at level 3', 'list',
+                  lambda: (s for s in G.chains(3, G.CORE, F1, forms_by_depth={3: G.FORMS})
+                           if _has_form(s))))
     return L
 
 
@@ -82,10 +80,6 @@ def _flat(s):
 
 def _has_form(s):
     return any(n[2] != 'assign' for n in _flat(s))
-
-
-def _nforms(s):
-    return sum(1 for n in _flat(s) if n[2] != 'assign')
 
 
 def _is_core(s):
